@@ -399,6 +399,11 @@ type scen struct {
 	clients [][]call // one slice per client thread
 }
 
+// scenarios whose name starts with "syncrepl:": after the initial calls the database becomes a primary with synchronous
+// replication (1 ack); an extra thread plays the replica: it reports, through ExportTxByID, that it holds everything the
+// primary has precommitted
+func (sc scen) syncRepl() bool { return strings.HasPrefix(sc.name, "syncrepl:") }
+
 func scenario(sc scen) sched.Scenario {
 	return sched.Scenario{Name: sc.name, MaxSteps: 1000000, Body: func(dir string) string {
 		so := storeh.SmallOptions().WithMaxKeyLen(256).WithMaxValueLen(256).WithMaxTxEntries(8)
@@ -420,12 +425,31 @@ func scenario(sc scen) sched.Scenario {
 		for _, c := range sc.init {
 			record(0, c)
 		}
+		finished := 0
+		if sc.syncRepl() {
+			db.AsReplica(false, true, 1)
+		}
 		vsched.Focus()
 		for i, cl := range sc.clients {
 			i, cl := i, cl
 			vsched.Spawn(func() {
 				for _, c := range cl {
 					record(i+1, c)
+				}
+				sched.Shared(func() { finished++ })
+			})
+		}
+		if sc.syncRepl() {
+			vsched.Spawn(func() {
+				for finished < len(sc.clients) {
+					if st, err := db.CurrentState(); err == nil && st.PrecommittedTxId > st.TxId {
+						ctx, cancel := context.WithCancel(context.Background())
+						db.ExportTxByID(ctx, &schema.ExportTxRequest{Tx: st.PrecommittedTxId, AllowPreCommitted: true,
+							ReplicaState: &schema.ReplicaState{UUID: "replica-1", CommittedTxID: st.TxId, CommittedAlh: st.TxHash,
+								PrecommittedTxID: st.PrecommittedTxId, PrecommittedAlh: st.PrecommittedTxHash}})
+						cancel()
+					}
+					vsched.Pause("replica")
 				}
 			})
 		}
@@ -474,6 +498,7 @@ func main() {
 		{"ifExists vs set", nil, [][]call{{{Kind: "setIfExists", K: k1, V: "a"}}, {{Kind: "set", K: k1, V: "b"}}}},
 		{"notModifiedAfter vs set", []call{{Kind: "set", K: k1, V: "v0"}}, [][]call{{{Kind: "setNotModifiedAfter", K: k1, V: "a", Tx: 1}}, {{Kind: "set", K: k1, V: "b"}}}},
 		{"set2 vs getAll", nil, [][]call{{{Kind: "set2", K: k1, K2: k2, V: "a"}}, {{Kind: "getAll", K: k1, K2: k2}}}},
+		{"syncrepl: ifNotExists vs ifNotExists", nil, [][]call{{{Kind: "setIfNotExists", K: k1, V: "a"}}, {{Kind: "setIfNotExists", K: k1, V: "b"}}}},
 		{"setRef vs set", []call{{Kind: "set", K: k1, V: "v0"}}, [][]call{{{Kind: "setRef", K: "r", K2: k1}}, {{Kind: "set", K: "r", V: "b"}}}},
 		{"delete vs get;ifExists", []call{{Kind: "set", K: k1, V: "v0"}}, [][]call{{{Kind: "delete", K: k1}}, {{Kind: "get", K: k1}, {Kind: "setIfExists", K: k1, V: "c"}}}},
 		{"set vs getAtTx;getSince", []call{{Kind: "set", K: k1, V: "v0"}}, [][]call{{{Kind: "set", K: k1, V: "a"}}, {{Kind: "getAtTx", K: k1, Tx: 2}, {Kind: "getSince", K: k1, Tx: 2}}}},
@@ -487,7 +512,7 @@ func main() {
 		if c.Thorough() {
 			jobs = append(jobs, sched.Job{Scenario: s.name, Bound: 1, Budget: 100 * time.Second})
 		} else {
-			jobs = append(jobs, sched.Job{Scenario: s.name, Bound: 1, Budget: 15 * time.Second})
+			jobs = append(jobs, sched.Job{Scenario: s.name, Bound: 1, Budget: 13 * time.Second})
 		}
 	}
 	if c.Thorough() {
